@@ -32,6 +32,9 @@ from sqvm.gen_calls import programs as gen_call_programs
 PROP = "C10"
 
 
+TYPE_SHIFT = "x = Foo[0x00, Bar[7], Baz[Qux, 0x01]], #'bin { [x, ~] }"
+
+
 def gen_functions():
     """small function-valued programs that differ only in constants / structure, so that functions
     of different programs coincide number for number while denoting different things"""
@@ -57,6 +60,14 @@ def gen_functions():
                         "#'int { { | =0 => %s | =n => n } { | =%s => 1 | 0 } }" % (v, t)))
             out.append(("gen_fn/partial_direct/%d_%d" % (vi, ti),
                         "#'int { =n, %s { | =%s => n | 0 } }" % (v, t)))
+    # builtin values under a run-time type test: the packaged program's builtin signatures decide
+    # whether the test accepts them
+    for k, (b1, b2) in enumerate((("__integer_and__", "__integer_add__"), ("__integer_multiply__", "__integer_subtract__"),
+                                  ("__integer_or__", "__integer_xor__"), ("__integer_gcd__", "__integer_modulo__"))):
+        out.append(("gen_fn/builtin_value/%d" % k,
+                    "pick = #'int { | =0 => &%s | =1 => &%s | 5 }, #'int { $ pick { | =(#['int, 'int] -> 'int)f => [12, 10] f | 99 } }" % (b1, b2)))
+        out.append(("gen_fn/builtin_value_unary/%d" % k,
+                    "pick = #'int { | =0 => &%s | =1 => &__integer_abs__ | 5 }, #'int { $ pick { | =(#'int -> 'int)f => 12 f | =(#['int, 'int] -> 'int)g => [12, 10] g | 99 } }" % b1))
     for m in ("add", "mul", "div", "lt?", "min"):
         out.append(("std/num." + m, "#['%%num.opt, '%%num.opt] { %%num.%s }" % m))
     for m in ("neg", "floor", "abs", "sign"):
@@ -284,6 +295,10 @@ def main():
         others = [sib or srcs[(i - 1) % len(srcs)], srcs[rnd.randrange(len(srcs))]]
         if i % 2 == 1:
             others.reverse()       # sibling merged first or second
+        if n.startswith("gen_fn/builtin_value"):
+            # merged after a program that registers tuples and types but no builtin: every type id
+            # of this program shifts and every builtin it uses is new to the environment
+            others = [TYPE_SHIFT]
         jobs.append((n, s, others, 20000, 6 if tier == "quick" else 20))
     with mp.Pool(16) as pool:
         results = pool.map(check_program, jobs, chunksize=1)
